@@ -82,3 +82,39 @@ Theorem C10_copy : forall (rel : list msg) (num den : Z) (r : list msg),
   exists r2, bar_init r num den = Ok r2 /\ ticks r2 0 = ticks r 0 /\ dur_rel r2 = dur_rel r.
 Proof. exact C10_copy.C10_copy. Qed.
 Print Assumptions C10_copy.
+
+(* ================================================================ the Bar OBJECT (Model/Comp.v, Proofs/Comp_proofs.v)
+   cbar_new s num den key = Bar(sequence, numerator, denominator, key) on the Sequence wrapper object s;
+   cbar_copy b = Bar.copy().  cb_seq / cb_num / cb_den / cb_key are the bar's attributes. *)
+From Model Require Import Store Comp.
+From Proofs Require Import Comp_proofs.
+
+(* object level "either raises or yields a bar": the only failures are the bar error and the sequence error of a
+   sequence with both views stale *)
+Theorem C10_bar_total : forall (s : seq) (num den : Z) (key : option Key),
+  (exists b, cbar_new s num den key = Ok b) \/ cbar_new s num den key = Err BarErr \/
+  (cbar_new s num den key = Err SeqErr /\ s_abs_stale s = true /\ s_rel_stale s = true).
+Proof. exact Comp_proofs.C10_bar_total. Qed.
+Print Assumptions C10_bar_total.
+
+(* a constructed bar: its sequence has a fresh relative view (absolute view stale) that lasts exactly the capacity,
+   starts with the bar's time signature and contains no other; the attributes are the constructor's arguments *)
+Theorem C10_bar_object : forall (s : seq) (num den : Z) (key : option Key) (b : cbar),
+  cbar_new s num den key = Ok b ->
+  s_rel_stale (cb_seq b) = false /\ s_abs_stale (cb_seq b) = true /\
+  dur_rel (s_rel (cb_seq b)) = bar_capacity num den /\
+  (exists tl, s_rel (cb_seq b) = mk_ts 0 num den 0 false :: tl /\ forallb (fun m => negb (is_ts m)) tl = true) /\
+  cb_num b = num /\ cb_den b = den /\ cb_key b = key.
+Proof. exact Comp_proofs.C10_bar_object. Qed.
+Print Assumptions C10_bar_object.
+
+(* clause "copying a bar yields an equal bar", object level: Bar.copy of a constructed bar never raises and gives a
+   bar with the same signature and key whose (fresh) relative view has the same timed events and the same duration *)
+Theorem C10_bar_copy : forall (s : seq) (num den : Z) (key : option Key) (b : cbar),
+  cbar_new s num den key = Ok b ->
+  exists b', cbar_copy b = Ok b' /\ cb_num b' = num /\ cb_den b' = den /\ cb_key b' = key /\
+             s_rel_stale (cb_seq b') = false /\ s_abs_stale (cb_seq b') = true /\
+             ticks (s_rel (cb_seq b')) 0 = ticks (s_rel (cb_seq b)) 0 /\
+             dur_rel (s_rel (cb_seq b')) = dur_rel (s_rel (cb_seq b)).
+Proof. exact Comp_proofs.C10_bar_copy. Qed.
+Print Assumptions C10_bar_copy.
